@@ -72,8 +72,9 @@ STATEMENT_STATUS: Dict[str, str] = {
     "stream_decode_handler": "proved: decode()'s handler for decoder-internal errors keeps every successful decode and "
                              "only substitutes the empty string",
     "stream_delim": "proved: payload delimited exactly for LF / CRLF (and CR not followed by LF), any payload bytes, Length = |payload|",
-    "lzw_translated/rl_translated/png_translated/tiff_translated": "proved: every hand-written constant / row formula of the "
-        "LZW, RunLength, PNG and TIFF models equals the definition regenerated from lzw.py / runlength.py / utils.py "
+    "lzw_translated/rl_translated/png_translated/tiff_translated/a85_ahx_translated": "proved: every hand-written constant / row formula of the "
+        "LZW, RunLength, PNG, TIFF and ASCIIHex models equals the definition regenerated from lzw.py / runlength.py / utils.py / ascii85.py; "
+        "the three regex sources of ascii85.py are the patterns the hand model implements "
         "(nbitsAfter, pngNbytes, pngBpp are used by the model directly)",
     "stream_read_exact": "proved: whole stream branch (streamRead), Length = |payload|: rawdata = payload (any bytes) and the "
         "parser resumes exactly at `endstream`, any marker-free bytes in between",
